@@ -24,7 +24,9 @@ MANIFEST = dict(
               "executed on real engines + replay of every state-graph edge")
 INVS = ["Transparent", "NoStaleValues", "KeysSound", "LruSane", "OnlyDocumentedError", "NoErrorWithoutMaps"]
 PROPS = ["CacheMoves"]
-KINDS = ["sel", "orm", "ins", "upd", "del", "txt"]
+KINDS = ["sel", "orm", "ins", "upd", "del", "txt", "typ"]
+TYP_C = ["cast", "tcoerce", "literal", "bind"]
+TYP_O = ["n10", "n10_0", "n10_2", "n10_f", "n10_d0", "s", "s0", "s5"]
 TXT_GROUP = ["txt|a|none|none|none|named", "txt|a|none|none|none|pos", "txt|a|eq|none|none|named", "txt|a|eq|none|none|pos"]
 SELFTEST_GROUP = ["sel|a|eq|none|none|none", "sel|a|in|none|limit|none", "upd|a|eqand|none|none|ret", "orm|a|eq|none|none|selectin"]
 
@@ -226,7 +228,7 @@ def main(chk):
     # 2. cache graphs of sampled groups of one-attribute neighbours
     ngroups = 6 if chk.quick else 12
     depth = 5 if chk.quick else 6
-    gnames = [n for n in names if not n.startswith("txt")]      # (the TextualSelect pair gets a graph of its own below)
+    gnames = [n for n in names if not n.startswith(("txt", "typ"))]      # (the TextualSelect pair gets a graph of its own below)
     groups = pick_groups(gnames, rng, ngroups, size=3 if chk.quick else 4)
     selftest = faulty_selftest(chk, SELFTEST_GROUP, 3, ["none"], cap)
     plans = [(g_, 3, ["none"], ["cached"], depth) for g_ in groups]
@@ -234,6 +236,12 @@ def main(chk):
         plans += [(g_, 4, ["none"], ["cached"], depth) for g_ in pick_groups(gnames, rng, 2, size=3)]
     # one small graph in which bypassing the cache (compiled_cache=None) is an action of its own
     plans.append((sorted(groups[1])[:3], 2, ["none"], ["cached", "nocache"], depth))
+    # typed constructs whose types differ in ONE constructor argument (absent / falsy / truthy), same construct, one shared cache:
+    # every pair is executed in both orders on the graph
+    for i in range(2 if chk.quick else 4):
+        c_ = TYP_C[(chk.seed + i) % len(TYP_C)] if chk.quick else TYP_C[i]
+        others = rng.sample([o_ for o_ in TYP_O if o_ not in ("n10", "n10_0")], 2) if i % 2 == 0 else ["s", "s0"]
+        plans.append((["typ|a|%s|none|none|%s" % (c_, o_) for o_ in ["n10", "n10_0"] + others], 2, ["none"], ["cached"], depth))
     # TextualSelect, by-name and positional, sharing one cache
     plans.append((TXT_GROUP, 2, ["none"], ["cached"], depth))
     G, graphs, runs, walks, extra, plan, steps, mism = graph_phase(chk, plans, cap, vals, table, rng, 200 if chk.quick else 2000, depth)
